@@ -151,6 +151,10 @@ func c08One(ctx *Ctx, i int, rng *rand.Rand, allowStall bool) {
 	if self == "c1" && rng.Intn(5) == 0 {
 		via = "vipnode_client"
 	}
+	if via == "vipnode_peer" && rng.Intn(6) == 0 {
+		// kinds no host has: other clients, other spellings (a kind is matched as the string it is)
+		kind = []string{"besu", "Geth", " geth", "geth-light", "pantheon"}[rng.Intn(5)]
+	}
 	desc.Requester, desc.Via, desc.Num, desc.Kind = self, via, num, kind
 	// state the model needs, read before the request
 	var nodesCoq []string
